@@ -23,18 +23,18 @@ def _case_of(ctx, ops, i):
     return lines[s:e]
 
 
-def oracle(ctx, stream, case_lines, rep):
-    """Property-level search on the implementation: first the shrunk case, then everything generated."""
+def oracle(ctx, stream, case_lines, rep, wide=True):
+    """Property-level search on the implementation: first the shrunk case, then (wide) everything generated."""
     cands = []
     p = os.path.join(ctx.work, "%s.oracle.ops" % stream)
     with open(p, "w") as f:
         f.write("\n".join(case_lines) + "\n")
     cands.append(p)
     g = os.path.join(ctx.work, "%s.gen.ops" % stream)
-    if os.path.exists(g):
+    if wide and os.path.exists(g):
         cands.append(g)
     cdir = os.path.join(os.path.dirname(os.path.dirname(os.path.abspath(__file__))), "harness", "corpus", ctx.pid)
-    if os.path.isdir(cdir):
+    if wide and os.path.isdir(cdir):
         for fn in sorted(os.listdir(cdir)):
             if fn.startswith(stream + ".") and fn.endswith(".ops"):
                 cands.append(os.path.join(cdir, fn))
@@ -124,7 +124,7 @@ def replay(ctx, path):
         f.write("\n".join(ops) + "\n")
     ok, impl, model, log = ctx.run_pair(stream, p, "replay")
     m = ctx.compare(stream, p, impl, model)[2] if ok else None
-    found = oracle(ctx, stream, ops, m.to_json() if m else None)
+    found = oracle(ctx, stream, ops, m.to_json() if m else None, wide=False)
     if found:
         ctx.violation(found[0], found[1], found[2], True)
     elif m is not None:
@@ -143,7 +143,7 @@ MANIFEST = {
                    "key_injective and sds_noninterference (over every interleaved request history on a shared cache the answer equals the "
                    "cache-free specification). The model is tied to /repo on every run by a line-by-line differential against the real functions."),
     "level_note": ("Trusted: Lean kernel + {propext, Classical.choice, Quot.sound}; the hand-written model (tied by differential testing: streams auth, "
-                   "parse, sds on the real code, ~5500 cases quick); the verif-tagged accessor file pilot/pkg/xds/zz_verif_c11.go; client-go fakes. "
+                   "parse, sds on the real code, ~7800 cases quick / 128000 thorough); the verif-tagged accessor file pilot/pkg/xds/zz_verif_c11.go; client-go fakes. "
                    "Kubernetes RBAC is an abstract authz function, VerifiedCertificateReferences an input set; TLS authentication that yields the "
                    "identity list is an input; private-key-provider configs, CRL/OCSP fields and secret updates with cache invalidation are not modelled."),
     "technique": "Lean 4 theorems over an exact model of identity binding and SDS release + differential correspondence with the real Go functions",
